@@ -175,12 +175,12 @@ func (r *envelopeReader) Unmarshal(message any) *Error {
 
 func (r *envelopeReader) Read(env *envelope) *Error {
 	prefixes := [5]byte{}
-	prefixBytesRead, err := r.reader.Read(prefixes[:])
+	// The transport may deliver the prefix in several short reads, so read
+	// until we have all five bytes (or the stream ends).
+	prefixBytesRead, err := io.ReadFull(r.reader, prefixes[:])
 
 	switch {
-	case (err == nil || errors.Is(err, io.EOF)) &&
-		prefixBytesRead == 5 &&
-		isSizeZeroPrefix(prefixes):
+	case err == nil && isSizeZeroPrefix(prefixes):
 		// Successfully read prefix and expect no additional data.
 		env.Flags = prefixes[0]
 		return nil
@@ -189,10 +189,15 @@ func (r *envelopeReader) Read(env *envelope) *Error {
 		// to the user so that they know that the stream has ended. We shouldn't
 		// add any alarming text about protocol errors, though.
 		return NewError(CodeUnknown, err)
-	case err != nil || prefixBytesRead < 5:
+	case err != nil:
 		// Something else has gone wrong - the stream didn't end cleanly.
 		if connectErr, ok := asError(err); ok {
 			return connectErr
+		}
+		if errors.Is(err, io.EOF) {
+			// The stream ended inside the prefix: this must not look like a
+			// clean end-of-stream to callers checking for io.EOF.
+			err = io.ErrUnexpectedEOF
 		}
 		return errorf(
 			CodeInvalidArgument,
